@@ -6,7 +6,7 @@
    py_gql/lang/printer.py (Lang/PrinterModel.v); [string_value], [block_value],
    [block_string_value], [strip_doc] are the specification side
    (Spec/PrinterSpec.v: GraphQL June 2018, 2.9.4). *)
-From PyGql Require Import Lang.Parser Proofs.PrinterRoundtrip.
+From PyGql Require Import Lang.Parser Spec.LexSpec Spec.GrammarSpec Proofs.PrinterRoundtrip Proofs.PrinterValueRoundtrip.
 From PyGql Require Import Lang.PrinterModel Spec.PrinterSpec Proofs.PrinterProofs.
 
 (* Quoted strings: reading the printed form of ANY string s (every code
@@ -92,6 +92,30 @@ Theorem C03_type_roundtrip : forall fl t,
 Proof. exact type_roundtrip. Qed.
 Print Assumptions C03_type_roundtrip.
 
+(* The same for Values (Value[~Const]: variables, numbers, quoted and block
+   strings, booleans, null, enums, lists, objects -- nested arbitrarily): for
+   every well-formed value (names are Names, numbers are IntValue / FloatValue
+   lexemes, enum values are not true/false/null, block-string values are
+   canonical and made of source characters -- all guaranteed for parser output),
+   every indent string of spaces/tabs, locations off: parsing the printed value
+   with the parser model gives the value back with its locations erased.
+   Composes C03_string_quote's escaping (against C02's string_body),
+   C03_block_print + C03_block_value_canonical (against C02's block_scan and
+   BlockStringValue, shown equal to ours: C03_block_specs_agree),
+   C01's number / name lexing and C01_value_complete. *)
+Theorem C03_value_roundtrip : forall fl cf v,
+  no_location fl = true -> all_ws (c_indent cf) -> wf_value false v ->
+  parse_value_str fl (pr_value cf v) = Ok (strip_value v).
+Proof. exact value_roundtrip. Qed.
+Print Assumptions C03_value_roundtrip.
+
+(* the two independent transcriptions of BlockStringValue (C02's and C03's)
+   are the same function *)
+Theorem C03_block_specs_agree : forall raw,
+  LexSpec.block_string_value raw = PrinterSpec.block_string_value raw.
+Proof. exact block_string_value_specs_agree. Qed.
+Print Assumptions C03_block_specs_agree.
+
 (* It is false for every parser, because descriptions of fields, arguments,
    input fields and enum values are not printed: two trees that differ (even
    after erasing locations) print to the same text for every indent. *)
@@ -146,3 +170,17 @@ Proof.
   - apply type_roundtrip; [reflexivity|]. simpl. repeat split.
     exists 70%N, (str_of_string "oo_1"). split; [reflexivity|]. split; [reflexivity|]. repeat constructor.
 Qed.
+
+
+Example C03_example_value :
+  let nm x := Name (str_of_string x) None in
+  let blk := PrinterSpec.block_string_value (str_of_string "
+      Hello,
+        World!
+  ") in
+  let v := VObject [(nm "a", VList [VInt (str_of_string "1") None; VFloat (str_of_string "-2.5e3") None;
+                                    VString [120; 34; 128512; 7]%N false None; VVar (nm "v") None;
+                                    VEnum (str_of_string "RED") None; VBool true None; VNull None;
+                                    VString blk true None; VObject [] None; VList [] None] None, None)] None in
+  parse_value_str (Flags true false false) (pr_value (Cfg (str_of_string "  ") true) v) = Ok (strip_value v).
+Proof. cbv zeta. vm_compute. reflexivity. Qed.
